@@ -35,6 +35,7 @@ import (
 	"pgregory.net/rapid"
 
 	"verif/harness/internal/ev"
+	"verif/harness/internal/loglevel"
 )
 
 func init() { zerolog.SetGlobalLevel(zerolog.Disabled) }
@@ -1489,6 +1490,9 @@ func property(t *testing.T, g genOpts) {
 		if o.outside != nil {
 			t.Skipf("outside domain: %v", o.outside)
 		}
+		level := loglevel.Gen().Draw(t, "log level")
+		r.Class("log level " + level)
+		defer loglevel.Set(level)()
 		r.Case()
 		classify(r, c, o)
 		if nonTrivial(o) {
